@@ -349,6 +349,11 @@ def coq_case(tree, tokens, syms, dot, obs):
     return f"mk_case {coq_tree(tree)} {coq_tokens(tokens)} {sy} {C.zlit(dot)}%Z {coq_obs(obs)}"
 
 
+def coq_tcase(tokens, syms, dot, obs):
+    sy = "[" + "; ".join(f"({C.coq_str(k)}, {C.zlit(v)}%Z)" for k, v in sorted(syms.items())) + "]"
+    return f"mk_tcase {coq_tokens(tokens)} {sy} {C.zlit(dot)}%Z {coq_obs(obs)}"
+
+
 # ---------------------------------------------------------------------------------------------
 # generation
 BOUNDARY = [0, 1, 2, 3, 7, 8, 9, 10, 15, 16, 63, 64, 255, 256, 0o377, 0o177777, 0o100000, 65535, 65536, (1 << 31) - 1, 1 << 31,
